@@ -4,17 +4,19 @@ RK  the analyser interprets bins() for every (start, end) pair in bands around e
     (2^17 .. 2^29), both coordinate conventions, both modes, and compares with a geometric model of the bin
     hierarchy: the single bin is the smallest bin that contains the interval (1 when out of range); the query's
     bin set contains the assigned bin of every interval contained in or overlapping the query.
-R1  call-site convention agreement (structural + interpreted): every stored bin is bins(<own chromosome start>,
-    <own chromosome end>, fmt="bed") (one=True), the query uses the same fmt with one=False; chunk-built objects
-    store the same bin as chromosome-built ones.
+R1  stored bins (interpreted): every class that assigns self.bin is constructed by the analyser, without parent and on
+    a chunk with a large offset, at layouts on / across level-17 boundaries; the stored bin is the smallest bin that
+    contains the object's own chromosome interval.  A class that stores a bin and has no builder here fails the run.
 R2  non-interference (structural): inside bins() no update of start/stop is control-dependent on `one`.
-R3  the pre-filter is applied only in strict (completely_within) mode.
+R3  query site (interpreted): query_by_position, strict and relaxed, at bin-boundary coordinates returns exactly the
+    members the coordinates select - including a relaxed query that overlaps only the span of a gene whose
+    transcripts are far apart (a pre-filter applied outside strict mode would hide it).
 R4  constants: FIRST_SHIFT, NEXT_SHIFT, OFFSETS[i] = 8*OFFSETS[i+1] + 1, MAX_CHROM_SIZE = 2^(17+3*4)."""
 import ast
 
 from ..astutil import Facts, bind_args, call_tail, calls_in, dotted, fact_atoms, names_in, src, walk_shallow
-from ..genekernel import gene_interp, mk_feature, mk_transcript
-from ..interp import Raised, Uninterpretable, module_const, std_interp
+from ..genekernel import gene_interp, mk_collection, mk_feature, mk_feature_collection, mk_gene, mk_transcript
+from ..interp import ClassTok, Raised, Uninterpretable, module_const, std_interp
 from ..lockernel import run, strands
 from .c05 import _report
 
@@ -151,49 +153,123 @@ def rk_bins(ctx):
              f"{n} (query, interval) pairs over the band points")
 
 
+STORING = {  # classes that store a bin at construction -> builder(it, S, layout, parent) (confirmed by reading; a class
+    # that assigns self.bin and is not listed here fails the run as analysis-broken)
+    "TranscriptInterval": lambda it, S, lay, p: mk_transcript(it, lay, S["MINUS"], parent_or_seq_chunk_parent=p),
+    "FeatureInterval": lambda it, S, lay, p: mk_feature(it, lay, S["PLUS"], parent_or_seq_chunk_parent=p),
+    "GeneInterval": lambda it, S, lay, p: mk_gene(it, [mk_transcript(it, [b], S["PLUS"], parent_or_seq_chunk_parent=p) for b in lay],
+                                                 parent_or_seq_chunk_parent=p),
+    "FeatureIntervalCollection": lambda it, S, lay, p: mk_feature_collection(
+        it, [mk_feature(it, [b], S["MINUS"], parent_or_seq_chunk_parent=p) for b in lay], parent_or_seq_chunk_parent=p),
+    "VariantInterval": lambda it, S, lay, p: it.apply(ClassTok("VariantInterval"), [lay[0][0], lay[-1][1], "A", "x"],
+                                                      {"parent_or_seq_chunk_parent": p}, None, 0),
+    "AnnotationCollection": lambda it, S, lay, p: mk_collection(
+        it, genes=[mk_gene(it, [mk_transcript(it, [b], S["PLUS"], parent_or_seq_chunk_parent=p) for b in lay], parent_or_seq_chunk_parent=p)],
+        start=lay[0][0], end=lay[-1][1], parent_or_seq_chunk_parent=p),
+}
+# layouts: own start on a level-17 boundary (a 1-based convention or a start-1 shift changes the level), a block across a
+# level-17 boundary, two blocks in different level-17 bins; the chunk offset makes chunk-relative coordinates fall into
+# other bins than chromosome coordinates
+R1_LAYOUTS = [[(262144, 262244)], [(393116, 393316)], [(262100, 262200), (393000, 393300)], [(300000, 301900)]]
+R1_CHUNK = (250000, 400000)
+
+
+def _stored_case(repo, it, S, spec):
+    cls, lay = spec
+    par = it.call_func(repo.fn("io.parser:seq_chunk_to_parent"), ["A" * (R1_CHUNK[1] - R1_CHUNK[0]), "chr1", R1_CHUNK[0], R1_CHUNK[1]],
+                       {}, None, 0)
+    want = model_one(lay[0][0], lay[-1][1], "bed")
+    out = []
+    n = 0
+    for which, p in (("without parent", None), (f"on chunk chr1:{R1_CHUNK[0]}-{R1_CHUNK[1]}", par)):
+        n += 1
+        try:
+            o = STORING[cls](it, S, lay, p)
+        except Raised as ex:
+            out.append((f"stored bin {which.split()[0]}", f"{cls} {lay} {which}: construction raises {ex.exc_name}", _cls_init(repo, cls)))
+            continue
+        got = o.fields.get("bin")
+        if got != want:
+            out.append((f"stored bin {which.split()[0]}", f"{cls} {lay} {which}: stored bin is {got}; the smallest bin containing its own "
+                        f"chromosome interval [{lay[0][0]},{lay[-1][1]}) is {want}", _cls_init(repo, cls)))
+    return n, out
+
+
+def _cls_init(repo, cls):
+    return f"{repo.cls(cls).module.name}:{cls}.__init__"
+
+
+def _query_case(repo, it, S, spec):
+    """strict queries around bin boundaries return every gene they contain; relaxed queries return every gene whose span they
+    overlap even when none of its transcripts shares a bin with the query"""
+    genes_lay, queries = spec
+    genes = [mk_gene(it, [mk_transcript(it, [b], S["PLUS"]) for b in lay], gene_id=f"g{i}") for i, lay in enumerate(genes_lay)]
+    ac = mk_collection(it, genes=genes, start=0, end=1100000)  # explicit bounds: every query below lies inside them
+    f = repo.fn("gene.collections:AnnotationCollection.query_by_position")
+    out = []
+    n = 0
+    for qs, qe in queries:
+        for strict in (True, False):
+            n += 1
+            k, res = run(it, f, [qs, qe], {"completely_within": strict}, ac)
+            spans = [(lay[0][0], lay[-1][1]) for lay in genes_lay]
+            if strict:
+                want = {f"g{i}" for i, (a, b) in enumerate(spans) if qs <= a and b <= qe}
+            else:
+                want = {f"g{i}" for i, (a, b) in enumerate(spans) if a < qe and qs < b}
+            got = {g.fields.get("gene_id") for g in res.fields.get("genes")} if k == "ok" else k + ":" + str(res)
+            if got != want:
+                out.append((f"query ({'strict' if strict else 'relaxed'})", f"genes {genes_lay}: query_by_position({qs},{qe}, completely_within="
+                            f"{strict}) returns {sorted(got) if isinstance(got, set) else got}; by coordinates the answer is {sorted(want)}",
+                            "gene.collections:AnnotationCollection._query_by_position"))
+    return n, out
+
+
+QUERY_SPECS = [
+    # genes at / across level-17 boundaries, queries whose ends sit on the same boundaries
+    ([[(262144, 262244)], [(393116, 393316)], [(262100, 262200), (393000, 393300)], [(131000, 131071)]],
+     [(262144, 262244), (262143, 262245), (393116, 393316), (393000, 393317), (262100, 393300), (262144, 393216), (131072, 393216),
+      (130999, 131072), (1, 524288), (262150, 262160), (393216, 393217)]),
+    # a gene whose two transcripts are far apart: a relaxed query between them overlaps the gene span only
+    ([[(1000, 1100), (1000000, 1000100)], [(500000, 500050)]],
+     [(400000, 600000), (500000, 500050), (1000, 1000100), (1050, 1000050), (200000, 200100)]),
+]
+
+
 def r1_call_sites(ctx):
     r, repo = ctx.r, ctx.repo
     sites = 0
+    storing = set()
     for fn in repo.all_funcs():
         if fn.module.name.startswith("util.bins"):
             continue
         for call in calls_in(fn.node):
-            if call_tail(call) != "bins" or dotted(call.func) not in ("bins",):
-                continue
-            sites += 1
-            a = bind_args(call, ["start", "stop", "fmt", "one"])
-            fmt = a.get("fmt")
-            r.check(isinstance(fmt, ast.Constant) and fmt.value == "bed", "C16.R1", fn.qual, "fmt='bed' (0-based half-open, as the model stores coordinates)",
-                    f"`{src(call)}` does not use fmt='bed'", (fn, call))
-            one = a.get("one")
-            if fn.name == "__init__":
-                r.check(one is None or (isinstance(one, ast.Constant) and one.value is True), "C16.R1", fn.qual, "stored bin uses one=True",
-                        f"`{src(call)}` stores a bin set instead of a single bin", (fn, call))
-                ok = {src(a.get("start")), src(a.get("stop"))} in ({"self.start", "self.end"}, {"start", "end"})
-                r.check(ok, "C16.R1", fn.qual, "stored bin is computed from the object's own chromosome (start, end)",
-                        f"`{src(call)}`: the stored bin is not bins(own chromosome start, own chromosome end)", (fn, call))
-                # and the assignment target is self.bin
-            else:
-                r.check(isinstance(one, ast.Constant) and one.value is False, "C16.R1", fn.qual, "query uses one=False",
-                        f"`{src(call)}`: a range query must use the set of overlapping bins", (fn, call))
+            if call_tail(call) == "bins" and dotted(call.func) in ("bins",):
+                sites += 1
+        for n in walk_shallow(fn.node):
+            tg = n.targets if isinstance(n, ast.Assign) else [n.target] if isinstance(n, (ast.AnnAssign, ast.AugAssign)) else []
+            for t in tg:
+                for x in ast.walk(t):
+                    if isinstance(x, ast.Attribute) and x.attr == "bin" and dotted(x.value) == "self" and fn.cls is not None:
+                        storing.add(fn.cls.name)
     r.floor("C16.R1", "bins() call sites", sites, 7)
-    # chunk-built twins with a large offset store the chromosome bin
-    it = gene_interp(repo, max_steps=10 ** 10)
-    S = strands(it)
-    from ..genekernel import chunk_parent
-    genome_off = 250000
-    par = it.call_func(repo.fn("io.parser:seq_chunk_to_parent"), ["A" * 150000, "chr1", genome_off, genome_off + 150000], {}, None, 0)
-    binf = repo.fn(BINS)
-    for kind in ("tx", "feat"):
-        for blocks in ([(300000, 301900)], [(262100, 262200), (393000, 393300)]):
-            mk = (lambda p: mk_transcript(it, blocks, S["MINUS"], parent_or_seq_chunk_parent=p)) if kind == "tx" else (
-                lambda p: mk_feature(it, blocks, S["MINUS"], parent_or_seq_chunk_parent=p))
-            a, b = mk(None), mk(par)
-            k, want = run(it, binf, [blocks[0][0], blocks[-1][1]], {"fmt": "bed"}, None)
-            cls = "gene.transcript:TranscriptInterval.__init__" if kind == "tx" else "gene.feature:FeatureInterval.__init__"
-            r.check(a.fields.get("bin") == want and b.fields.get("bin") == want, "C16.R1", cls, f"chunk twin stores the chromosome bin {blocks}",
-                    f"{kind} {blocks}: stored bin is {a.fields.get('bin')} without parent and {b.fields.get('bin')} on chunk chr1:{genome_off}-"
-                    f"{genome_off + 150000}; bins(chromosome start, end) = {want}", repo.fn(cls))
+    unknown = storing - set(STORING)
+    if unknown:
+        r.error("C16.R1", f"classes {sorted(unknown)} assign self.bin and have no builder in the checker: the stored-bin rule does not cover them")
+    r.floor("C16.R1", "classes that store a bin", len(storing & set(STORING)), 6)
+    from ..par import pmap
+    specs = [(cls, lay) for cls in sorted(STORING) for lay in R1_LAYOUTS if not (cls == "VariantInterval" and len(lay) > 1)]
+    results = pmap(_runner(repo, _stored_case), specs, min_items=4)
+    _report(ctx, "C16.R1", results, [(_cls_init(repo, c), "stored bin = smallest bin containing the object's own chromosome interval "
+                                      "(chromosome-built and chunk-built)") for c in sorted(STORING)])
+
+
+def r3_query_sites(ctx):
+    from ..par import pmap
+    results = pmap(_runner(ctx.repo, _query_case), QUERY_SPECS, min_items=1)
+    _report(ctx, "C16.R3", results, [("gene.collections:AnnotationCollection._query_by_position",
+                                      "strict and relaxed range queries at bin boundaries return exactly the members the coordinates select")])
+    ctx.r.floor("C16.R3", "query evaluations", sum(x[0] for x in results), 30)
 
 
 def r2_non_interference(ctx):
@@ -229,21 +305,6 @@ def r2_non_interference(ctx):
     r.ok("C16.R2", fn.qual, "structure of the level walk", fn)
 
 
-def r3_prefilter_strict_only(ctx):
-    r = ctx.r
-    fn = ctx.repo.fn("gene.collections:AnnotationCollection._query_by_position")
-    calls = [c for c in calls_in(fn.node) if call_tail(c) == "bins"]
-    facts = Facts(fn.node)
-    ok = bool(calls)
-    for c in calls:
-        at = [src(t) for t, pol in fact_atoms(facts.facts_at(c)) if pol]
-        if "completely_within" not in at:
-            ok = False
-    r.check(ok, "C16.R3", fn.qual, "bin pre-filter only under completely_within",
-            "the bin set is computed (and used for filtering) outside the completely_within branch: in relaxed mode the "
-            "set of a query does not contain the bins of all overlapping children's grandchildren", fn)
-
-
 def r4_constants(ctx):
     r = ctx.r
     it = std_interp(ctx.repo)
@@ -264,6 +325,6 @@ RULES = [
     ("C16.RK", rk_bins),
     ("C16.R1", r1_call_sites),
     ("C16.R2", r2_non_interference),
-    ("C16.R3", r3_prefilter_strict_only),
+    ("C16.R3", r3_query_sites),
     ("C16.R4", r4_constants),
 ]
